@@ -1097,8 +1097,9 @@ func compareSemanticallyEquivalentTypes(newType, oldType *SimpleType, context *E
 	}
 
 	typeArgDefinitionChanged := false
-	if len(newType.TypeArguments) > 0 || len(oldType.TypeArguments) > 0 {
+	{
 		// Resolve both definitions to their base definitions then compare their TypeArguments
+		// (an alias binds the type arguments in its definition, not where it is used)
 		newTypeArgs := getBaseDefinition(newDef).GetDefinitionMeta().TypeArguments
 		oldTypeArgs := getBaseDefinition(oldDef).GetDefinitionMeta().TypeArguments
 		if len(newTypeArgs) == len(oldTypeArgs) {
